@@ -166,139 +166,7 @@ func runC16(p *Prog, r *Report) {
 		r.End()
 	}
 	if want("C16.4") {
-		r.Begin("C16.4", "E-SIB", "partition agreement: the writer starts partition offset/(1<<baseLg), the reader probes partition offset>>baseLg; baseLg is the last byte of the filter block on both sides; the offset array position is the 4 bytes before it", 4)
-		if fn := resolveFn(p, r, "leveldb/table", "(*filterWriter).flush"); fn != nil {
-			// the writer keeps generating partitions while fewer than floor(offset / 2^baseLg) exist.
-			// Two spellings of that loop condition are recognised (operands by role):
-			//   (A)  offset / (1<<baseLg)  >  len(offsets)      (also offset >> baseLg)
-			//   (B)  (len(offsets)+1) << baseLg  <=  offset     (also … * (1<<baseLg))
-			isLenOffsets := func(v ssa.Value) bool {
-				c, ok := stripConv(v).(*ssa.Call)
-				return ok && isCallTo(c, "builtin:len") && isFieldLoad(c.Call.Args[0], "leveldb/table.filterWriter", "offsets")
-			}
-			isBase := func(v ssa.Value) bool { return isFieldLoad(stripConv(v), "leveldb/table.filterWriter", "baseLg") }
-			isOffset := func(v ssa.Value) bool { return mParam("offset")(stripConv(v)) }
-			pow := func(v ssa.Value) bool { // 1 << baseLg
-				sh, ok := isBin(stripConv(v), token.SHL)
-				return ok && mConstInt(1)(sh.X) && isBase(sh.Y)
-			}
-			partIdx := func(v ssa.Value) bool { // offset / 2^b
-				v = stripConv(v)
-				if q, ok := isBin(v, token.QUO); ok && isOffset(q.X) && pow(q.Y) {
-					return true
-				}
-				if sh, ok := isBin(v, token.SHR); ok && isOffset(sh.X) && isBase(sh.Y) {
-					return true
-				}
-				return false
-			}
-			nextStart := func(v ssa.Value) bool { // (len+1) * 2^b
-				v = stripConv(v)
-				lenPlus1 := func(x ssa.Value) bool {
-					a, ok := isBin(stripConv(x), token.ADD)
-					return ok && ((isLenOffsets(a.X) && mConstInt(1)(a.Y)) || (isLenOffsets(a.Y) && mConstInt(1)(a.X)))
-				}
-				if sh, ok := isBin(v, token.SHL); ok && lenPlus1(sh.X) && isBase(sh.Y) {
-					return true
-				}
-				if m, ok := isBin(v, token.MUL); ok && ((lenPlus1(m.X) && pow(m.Y)) || (lenPlus1(m.Y) && pow(m.X))) {
-					return true
-				}
-				return false
-			}
-			verdict, detail := "", "no loop condition relating offset, baseLg and len(offsets) found"
-			for _, b := range fn.Blocks {
-				cond, neg, ok := ifCond(b)
-				if !ok {
-					continue
-				}
-				bo, isB := cond.(*ssa.BinOp)
-				if !isB || !isCmpOp(bo.Op) {
-					continue
-				}
-				op := bo.Op
-				if neg {
-					op = map[token.Token]token.Token{token.LSS: token.GEQ, token.LEQ: token.GTR, token.GTR: token.LEQ, token.GEQ: token.LSS, token.EQL: token.NEQ, token.NEQ: token.EQL}[op]
-				}
-				flip := map[token.Token]token.Token{token.LSS: token.GTR, token.LEQ: token.GEQ, token.GTR: token.LSS, token.GEQ: token.LEQ, token.EQL: token.EQL, token.NEQ: token.NEQ}
-				X, Y := bo.X, bo.Y
-				// normalise so that the "partition side" is on the left
-				switch {
-				case partIdx(Y) && isLenOffsets(X), nextStart(Y) && isOffset(X):
-					X, Y, op = Y, X, flip[op]
-				}
-				switch {
-				case partIdx(X) && isLenOffsets(Y):
-					if op == token.GTR {
-						verdict = "ok"
-					} else {
-						verdict, detail = "bad", "the loop continues while offset/2^baseLg "+op.String()+" len(offsets) (want >)"
-					}
-				case nextStart(X) && isOffset(Y):
-					if op == token.LEQ {
-						verdict = "ok"
-					} else {
-						verdict, detail = "bad", "the loop continues while (len(offsets)+1)<<baseLg "+op.String()+" offset (want <=): when a data block ends exactly on a multiple of 2^baseLg one partition too few is started and the next block's keys land in the previous filter — filtered lookups miss stored keys"
-					}
-				}
-			}
-			r.Site(1)
-			r.Check(verdict == "ok", fnName(fn), "writer-partition-index", "the writer starts partitions until floor(offset / 2^baseLg) exist — offset/(1<<baseLg) > len(offsets), or (len(offsets)+1)<<baseLg <= offset", detail, p.Pos(fn.Pos()))
-			// generate() only inside that loop
-			n := 0
-			for _, c := range findCalls(fn, "(*leveldb/table.filterWriter).generate") {
-				n++
-				_ = c
-			}
-			r.Check(n == 1, fnName(fn), "one-partition-per-round", "flush starts partitions only through that loop (one generate() call site)", fmt.Sprintf("%d generate() call sites", n), p.Pos(fn.Pos()))
-		}
-		if fn := resolveFn(p, r, "leveldb/table", "(*filterBlock).contains"); fn != nil {
-			okv := false
-			instrs(fn, func(_ *ssa.BasicBlock, _ int, in ssa.Instruction) {
-				if b, ok := in.(*ssa.BinOp); ok && b.Op == token.SHR && mParam("offset")(b.X) && isFieldLoad(b.Y, "leveldb/table.filterBlock", "baseLg") {
-					okv = true
-				}
-			})
-			r.Site(1)
-			r.Check(okv, fnName(fn), "reader-partition-index", "reader partition index = offset >> baseLg", "different expression", p.Pos(fn.Pos()))
-		}
-		if fn := resolveFn(p, r, "leveldb/table", "(*filterWriter).finish"); fn != nil {
-			okv := false
-			instrs(fn, func(_ *ssa.BasicBlock, _ int, in ssa.Instruction) {
-				if c, ok := in.(*ssa.Call); ok && isCallTo(c, "(*leveldb/util.Buffer).WriteByte") && isFieldLoad(stripConv(c.Call.Args[1]), "leveldb/table.filterWriter", "baseLg") {
-					okv = true
-				}
-			})
-			r.Site(1)
-			r.Check(okv, fnName(fn), "baseLg-last-byte-written", "the writer appends baseLg as the block's last byte", "WriteByte(baseLg) not found", p.Pos(fn.Pos()))
-			// it is the LAST thing written
-			ordNeverAfter(p, r, fn, "baseLg-is-last", nil, evCall("(*leveldb/util.Buffer).WriteByte"), "WriteByte(baseLg)", evCall("(*leveldb/util.Buffer).Alloc", "(*leveldb/util.Buffer).Write"), "another write to the filter block", nil, "")
-		}
-		if fn := resolveFn(p, r, "leveldb/table", "(*Reader).readFilterBlock"); fn != nil {
-			okLg, okOff := false, false
-			instrs(fn, func(_ *ssa.BasicBlock, _ int, in ssa.Instruction) {
-				if st, ok := in.(*ssa.Store); ok && isFieldAddr(st.Addr, "leveldb/table.filterBlock", "baseLg") {
-					// data[n-1]
-					if u, ok := stripConv(st.Val).(*ssa.UnOp); ok {
-						if ia, ok := u.X.(*ssa.IndexAddr); ok {
-							if b, ok := isBin(ia.Index, token.SUB); ok && mConstInt(1)(b.Y) {
-								okLg = true
-							}
-						}
-					}
-				}
-				// m = n - 5 ; oOffset = Uint32(data[m:])
-				if b, ok := in.(*ssa.BinOp); ok && b.Op == token.SUB && mConstInt(5)(b.Y) {
-					okOff = true
-				}
-			})
-			r.Site(2)
-			r.Check(okLg, fnName(fn), "baseLg-last-byte-read", "the reader takes baseLg from the block's last byte", "baseLg not read from data[n-1]", p.Pos(fn.Pos()))
-			r.Check(okOff, fnName(fn), "offset-array-position", "the offsets' offset is the 4 bytes before baseLg (n-5)", "n-5 not found", p.Pos(fn.Pos()))
-			// always checksummed
-			checkCallArg(p, r, fn, "filter-block-verified", "(*leveldb/table.Reader).readRawBlock", 2, func(v ssa.Value) bool { b, ok := constBool(v); return ok && b }, "verifyChecksum = true")
-		}
-		r.End()
+		ruleFilterPartition(p, r, "C16.4")
 	}
 	if want("C16.7") {
 		ruleTableOptions(p, r, "C16.7")
@@ -569,4 +437,141 @@ func ruleBloomAgreement(p *Prog, r *Report, rule string) {
 func isConstString(v ssa.Value) bool {
 	c, ok := v.(*ssa.Const)
 	return ok && c.Value != nil && c.Value.Kind() == constant.String
+}
+
+// ruleFilterPartition: C16.4 / C13.17 — writer and reader of the filter block agree on the partition a data block's keys go to.
+func ruleFilterPartition(p *Prog, r *Report, rule string) {
+	r.Begin(rule, "E-SIB", "partition agreement: the writer starts partition offset/(1<<baseLg), the reader probes partition offset>>baseLg; baseLg is the last byte of the filter block on both sides; the offset array position is the 4 bytes before it", 4)
+	if fn := resolveFn(p, r, "leveldb/table", "(*filterWriter).flush"); fn != nil {
+		// the writer keeps generating partitions while fewer than floor(offset / 2^baseLg) exist.
+		// Two spellings of that loop condition are recognised (operands by role):
+		//   (A)  offset / (1<<baseLg)  >  len(offsets)      (also offset >> baseLg)
+		//   (B)  (len(offsets)+1) << baseLg  <=  offset     (also … * (1<<baseLg))
+		isLenOffsets := func(v ssa.Value) bool {
+			c, ok := stripConv(v).(*ssa.Call)
+			return ok && isCallTo(c, "builtin:len") && isFieldLoad(c.Call.Args[0], "leveldb/table.filterWriter", "offsets")
+		}
+		isBase := func(v ssa.Value) bool { return isFieldLoad(stripConv(v), "leveldb/table.filterWriter", "baseLg") }
+		isOffset := func(v ssa.Value) bool { return mParam("offset")(stripConv(v)) }
+		pow := func(v ssa.Value) bool { // 1 << baseLg
+			sh, ok := isBin(stripConv(v), token.SHL)
+			return ok && mConstInt(1)(sh.X) && isBase(sh.Y)
+		}
+		partIdx := func(v ssa.Value) bool { // offset / 2^b
+			v = stripConv(v)
+			if q, ok := isBin(v, token.QUO); ok && isOffset(q.X) && pow(q.Y) {
+				return true
+			}
+			if sh, ok := isBin(v, token.SHR); ok && isOffset(sh.X) && isBase(sh.Y) {
+				return true
+			}
+			return false
+		}
+		nextStart := func(v ssa.Value) bool { // (len+1) * 2^b
+			v = stripConv(v)
+			lenPlus1 := func(x ssa.Value) bool {
+				a, ok := isBin(stripConv(x), token.ADD)
+				return ok && ((isLenOffsets(a.X) && mConstInt(1)(a.Y)) || (isLenOffsets(a.Y) && mConstInt(1)(a.X)))
+			}
+			if sh, ok := isBin(v, token.SHL); ok && lenPlus1(sh.X) && isBase(sh.Y) {
+				return true
+			}
+			if m, ok := isBin(v, token.MUL); ok && ((lenPlus1(m.X) && pow(m.Y)) || (lenPlus1(m.Y) && pow(m.X))) {
+				return true
+			}
+			return false
+		}
+		verdict, detail := "", "no loop condition relating offset, baseLg and len(offsets) found"
+		for _, b := range fn.Blocks {
+			cond, neg, ok := ifCond(b)
+			if !ok {
+				continue
+			}
+			bo, isB := cond.(*ssa.BinOp)
+			if !isB || !isCmpOp(bo.Op) {
+				continue
+			}
+			op := bo.Op
+			if neg {
+				op = map[token.Token]token.Token{token.LSS: token.GEQ, token.LEQ: token.GTR, token.GTR: token.LEQ, token.GEQ: token.LSS, token.EQL: token.NEQ, token.NEQ: token.EQL}[op]
+			}
+			flip := map[token.Token]token.Token{token.LSS: token.GTR, token.LEQ: token.GEQ, token.GTR: token.LSS, token.GEQ: token.LEQ, token.EQL: token.EQL, token.NEQ: token.NEQ}
+			X, Y := bo.X, bo.Y
+			// normalise so that the "partition side" is on the left
+			switch {
+			case partIdx(Y) && isLenOffsets(X), nextStart(Y) && isOffset(X):
+				X, Y, op = Y, X, flip[op]
+			}
+			switch {
+			case partIdx(X) && isLenOffsets(Y):
+				if op == token.GTR {
+					verdict = "ok"
+				} else {
+					verdict, detail = "bad", "the loop continues while offset/2^baseLg "+op.String()+" len(offsets) (want >)"
+				}
+			case nextStart(X) && isOffset(Y):
+				if op == token.LEQ {
+					verdict = "ok"
+				} else {
+					verdict, detail = "bad", "the loop continues while (len(offsets)+1)<<baseLg "+op.String()+" offset (want <=): when a data block ends exactly on a multiple of 2^baseLg one partition too few is started and the next block's keys land in the previous filter — filtered lookups miss stored keys"
+				}
+			}
+		}
+		r.Site(1)
+		r.Check(verdict == "ok", fnName(fn), "writer-partition-index", "the writer starts partitions until floor(offset / 2^baseLg) exist — offset/(1<<baseLg) > len(offsets), or (len(offsets)+1)<<baseLg <= offset", detail, p.Pos(fn.Pos()))
+		// generate() only inside that loop
+		n := 0
+		for _, c := range findCalls(fn, "(*leveldb/table.filterWriter).generate") {
+			n++
+			_ = c
+		}
+		r.Check(n == 1, fnName(fn), "one-partition-per-round", "flush starts partitions only through that loop (one generate() call site)", fmt.Sprintf("%d generate() call sites", n), p.Pos(fn.Pos()))
+	}
+	if fn := resolveFn(p, r, "leveldb/table", "(*filterBlock).contains"); fn != nil {
+		okv := false
+		instrs(fn, func(_ *ssa.BasicBlock, _ int, in ssa.Instruction) {
+			if b, ok := in.(*ssa.BinOp); ok && b.Op == token.SHR && mParam("offset")(b.X) && isFieldLoad(b.Y, "leveldb/table.filterBlock", "baseLg") {
+				okv = true
+			}
+		})
+		r.Site(1)
+		r.Check(okv, fnName(fn), "reader-partition-index", "reader partition index = offset >> baseLg", "different expression", p.Pos(fn.Pos()))
+	}
+	if fn := resolveFn(p, r, "leveldb/table", "(*filterWriter).finish"); fn != nil {
+		okv := false
+		instrs(fn, func(_ *ssa.BasicBlock, _ int, in ssa.Instruction) {
+			if c, ok := in.(*ssa.Call); ok && isCallTo(c, "(*leveldb/util.Buffer).WriteByte") && isFieldLoad(stripConv(c.Call.Args[1]), "leveldb/table.filterWriter", "baseLg") {
+				okv = true
+			}
+		})
+		r.Site(1)
+		r.Check(okv, fnName(fn), "baseLg-last-byte-written", "the writer appends baseLg as the block's last byte", "WriteByte(baseLg) not found", p.Pos(fn.Pos()))
+		// it is the LAST thing written
+		ordNeverAfter(p, r, fn, "baseLg-is-last", nil, evCall("(*leveldb/util.Buffer).WriteByte"), "WriteByte(baseLg)", evCall("(*leveldb/util.Buffer).Alloc", "(*leveldb/util.Buffer).Write"), "another write to the filter block", nil, "")
+	}
+	if fn := resolveFn(p, r, "leveldb/table", "(*Reader).readFilterBlock"); fn != nil {
+		okLg, okOff := false, false
+		instrs(fn, func(_ *ssa.BasicBlock, _ int, in ssa.Instruction) {
+			if st, ok := in.(*ssa.Store); ok && isFieldAddr(st.Addr, "leveldb/table.filterBlock", "baseLg") {
+				// data[n-1]
+				if u, ok := stripConv(st.Val).(*ssa.UnOp); ok {
+					if ia, ok := u.X.(*ssa.IndexAddr); ok {
+						if b, ok := isBin(ia.Index, token.SUB); ok && mConstInt(1)(b.Y) {
+							okLg = true
+						}
+					}
+				}
+			}
+			// m = n - 5 ; oOffset = Uint32(data[m:])
+			if b, ok := in.(*ssa.BinOp); ok && b.Op == token.SUB && mConstInt(5)(b.Y) {
+				okOff = true
+			}
+		})
+		r.Site(2)
+		r.Check(okLg, fnName(fn), "baseLg-last-byte-read", "the reader takes baseLg from the block's last byte", "baseLg not read from data[n-1]", p.Pos(fn.Pos()))
+		r.Check(okOff, fnName(fn), "offset-array-position", "the offsets' offset is the 4 bytes before baseLg (n-5)", "n-5 not found", p.Pos(fn.Pos()))
+		// always checksummed
+		checkCallArg(p, r, fn, "filter-block-verified", "(*leveldb/table.Reader).readRawBlock", 2, func(v ssa.Value) bool { b, ok := constBool(v); return ok && b }, "verifyChecksum = true")
+	}
+	r.End()
 }
